@@ -561,11 +561,17 @@ func genFunc(r *hx.Rng) *gScen {
 // of ANOTHER Go type (FW: implements Ifc0 and Ifc1 only). Holders reach X by name and by type through pointer, interface,
 // slice and `any` fields, required and optional, with and without a cycle back from X.
 func genForeign(r *hx.Rng) *gScen {
+	return genForeignP(r, r.Intn(5), r.Intn(4), -1)
+}
+
+// genForeignP: xti = which substituted type, fnMode = which substitute, holderCase = -1 (random per holder) or the forced
+// shape of every holder's point (the corpus enumerates them)
+func genForeignP(r *hx.Rng, xti, fnMode, holderCase int) *gScen {
 	g := newBuilder(r)
-	xt := []int{0, 1, 4, 16, 3}[r.Intn(5)] // T0, T1, T4 (the pointer-slot types), T16, T3: all implement Ifc0
+	xt := []int{0, 1, 4, 16, 3}[xti] // T0, T1, T4 (the pointer-slot types), T16, T3: all implement Ifc0
 	x := g.addNode(xt, r.P(1, 3))
 	g.sc.nodes[x].early, g.sc.nodes[x].after = foreignVer, foreignVer
-	fnMode := r.Intn(4) // 1: func-kinded substitute at both timings, two different closures; 2: the same one; 3: after only
+	// fnMode 1: func-kinded substitute at both timings, two different closures; 2: the same one; 0, 3: a struct of another type
 	switch fnMode {
 	case 1:
 		g.sc.nodes[x].early, g.sc.nodes[x].after = fnVer, fnVer+1
@@ -580,7 +586,11 @@ func genForeign(r *hx.Rng) *gScen {
 		if r.P(1, 2) {
 			opt = ",required=false"
 		}
-		switch r.Intn(6) {
+		hc := holderCase
+		if hc < 0 {
+			hc = r.Intn(6)
+		}
+		switch hc {
 		case 0: // *T by name
 			if s, ok := ptrSlot[xt]; ok {
 				g.sc.nodes[h].slots[s] = "w" + g.nameOf(x) + opt
@@ -799,6 +809,23 @@ func graphCorpus(w *hx.Writer) {
 	emitGraph(genSelf(r.Fork()), []string{"corpus", "self"}, w)
 	emitGraph(genD8(r.Fork()), []string{"corpus", "d8"}, w)
 	emitGraph(genDiamond(r.Fork()), []string{"corpus", "diamond"}, w)
+	// template sweep, independent of the run's seed: the rare templates are present in EVERY run in all their shapes
+	for xti := 0; xti < 5; xti++ {
+		for mode := 0; mode < 3; mode++ {
+			for hc := 0; hc < 6; hc++ {
+				emitGraph(genForeignP(r.Fork(), xti, mode, hc), []string{"corpus", "foreign"}, w)
+			}
+		}
+	}
+	for i := 0; i < 24; i++ {
+		emitGraph(genRetry(r.Fork()), []string{"corpus", "retry"}, w)
+		emitGraph(genReentrant(r.Fork()), []string{"corpus", "reentrant"}, w)
+		emitGraph(genFunc(r.Fork()), []string{"corpus", "func"}, w)
+		emitGraph(genPadded(r.Fork()), []string{"corpus", "padded"}, w)
+		emitGraph(genMatch(r.Fork()), []string{"corpus", "match"}, w)
+		emitGraph(genSliceCycle(r.Fork()), []string{"corpus", "slicecycle"}, w)
+		emitGraph(genSelf(r.Fork()), []string{"corpus", "self"}, w)
+	}
 }
 
 func graphGen(rng *hx.Rng, n int, tier string, w *hx.Writer) {
